@@ -33,6 +33,7 @@ package definition
 //@ site (resource.Applicator).Apply(_, _, $o, $opts...)
 //@   assert [C08:no-apply-while-deleting] !meta.WasDeleted(d)
 //@   assert [C02:crd-apply-controllable] $o == $crd && contains($opts, resource.MustBeControllableBy(d.GetUID()))
+//@   assert [C11,C02:the-crd-is-applied-whenever-it-is-controllable-so-it-ends-up-controlled-by-the-xrd] len($opts) == 2
 
 // C09 (wiring): every connection publisher handed to an XR controller filters by the XRD's
 // own connectionSecretKeys.
